@@ -37,8 +37,8 @@ func readActionTable(c *Ctx, dv *dev, rule string) actionTable {
 	for _, b := range nd.Blocks {
 		for _, in := range b.Instrs {
 			if st, ok := in.(*ssa.Store); ok {
-				if f := fieldOfAddr(st.Addr); f != nil && (f.Name() == "actionsPress" || f.Name() == "actionsRelease") {
-					mapField[throughCtor(c.P, st.Val)] = f.Name() // also a table built by a constructor helper
+				if f := fieldOfAddr(st.Addr); f != nil && (sameAnchorName(f.Name(), "actionsPress") || sameAnchorName(f.Name(), "actionsRelease")) {
+					mapField[throughCtor(c.P, st.Val)] = map[bool]string{true: "actionsPress", false: "actionsRelease"}[sameAnchorName(f.Name(), "actionsPress")] // also a table built by a constructor helper
 				}
 			}
 		}
